@@ -364,4 +364,92 @@ theorem run_addr (ops : List Op) : ∀ (c : Client), AddrInv c → AddrInv (run 
     simpa [run] using this
 
 
+/-- fields the reconnect timer logic reads are not touched by `reopen` / `accept` -/
+theorem reopen_keeps (c : Client) : (reopen c).1.now = c.now ∧ (reopen c).1.timeout = c.timeout ∧
+    (reopen c).1.timer = c.timer ∧ (reopen c).1.reconnectable = c.reconnectable ∧ (reopen c).1.retry = c.retry := by
+  rw [reopen_fst]; exact ⟨rfl, rfl, rfl, rfl, rfl⟩
+
+/-- the index of the `connect_ex` the next `accept` makes on its socket -/
+def nextAttempt (c : Client) : Nat := match c.sock with | some _ => c.attempts | none => 0
+
+theorem accept_not_ok (c : Client) (ans : Nat → Nat)
+    (hn : ¬ isOk (ans (nextAttempt c))) (ha : c.accepted = false) :
+    (accept c ans).1.accepted = false ∧ (accept c ans).1.now = c.now ∧ (accept c ans).1.timeout = c.timeout ∧
+    (accept c ans).1.timer = c.timer ∧ (accept c ans).1.reconnectable = c.reconnectable := by
+  -- reduce to a client with an open socket
+  have key : ∀ (c : Client) (id : Nat), c.sock = some id → c.accepted = false → ¬ isOk (ans c.attempts) →
+      (accept c ans).1.accepted = false ∧ (accept c ans).1.now = c.now ∧ (accept c ans).1.timeout = c.timeout ∧
+      (accept c ans).1.timer = c.timer ∧ (accept c ans).1.reconnectable = c.reconnectable := by
+    intro c id hs ha hn
+    rw [accept_open c ans id hs]
+    have h1 : ¬ (ans c.attempts = 0 ∨ ans c.attempts = EISCONN) := hn
+    rw [if_neg h1]
+    split
+    · obtain ⟨a, b, d, e, _⟩ := reopen_keeps { c with attempts := c.attempts + 1 }
+      refine ⟨?_, a, b, d, e⟩
+      rw [reopen_fst]
+    · exact ⟨ha, rfl, rfl, rfl, rfl⟩
+  cases hs : c.sock with
+  | some id => exact key c id hs ha (by simpa [nextAttempt, hs] using hn)
+  | none =>
+    have hro := reopen_fst c
+    have heq : (accept c ans).1 = (accept (reopen c).1 ans).1 := by
+      conv => lhs; unfold accept
+      simp only [hs]
+      rw [accept_open (reopen c).1 ans c.fresh (by rw [hro])]
+      generalize reopen c = r at hro
+      obtain ⟨c1, e1⟩ := r
+      simp only at hro
+      subst hro
+      simp only
+      split
+      · rfl
+      · split <;> rfl
+    rw [heq]
+    obtain ⟨a, b, d, e, f⟩ := key (reopen c).1 c.fresh (by rw [hro]) (by rw [hro])
+      (by rw [hro]; simpa [nextAttempt, hs] using hn)
+    obtain ⟨a', b', d', e', _⟩ := reopen_keeps c
+    exact ⟨a, by rw [b, a'], by rw [d, b'], by rw [e, d'], by rw [f, e']⟩
+
+/-- a successful `connect_ex` connects, whatever the timer says -/
+theorem serviceConnect_ok (c : Client) (ans : Nat → Nat) (ha : c.accepted = false)
+    (hok : isOk (ans (nextAttempt c))) :
+    (serviceConnect c ans).1.accepted = true ∧ (serviceConnect c ans).1.cutoff = false := by
+  have key : ∀ (c : Client) (id : Nat), c.sock = some id → isOk (ans c.attempts) →
+      (accept c ans).1.accepted = true ∧ (accept c ans).1.cutoff = false := by
+    intro c id hs hok
+    rw [accept_open c ans id hs]
+    have h1 : ans c.attempts = 0 ∨ ans c.attempts = EISCONN := hok
+    rw [if_pos h1]
+    exact ⟨rfl, rfl⟩
+  have hacc : (accept c ans).1.accepted = true ∧ (accept c ans).1.cutoff = false := by
+    cases hs : c.sock with
+    | some id => exact key c id hs (by simpa [nextAttempt, hs] using hok)
+    | none =>
+      have hro := reopen_fst c
+      have heq : (accept c ans).1 = (accept (reopen c).1 ans).1 := by
+        conv => lhs; unfold accept
+        simp only [hs]
+        rw [accept_open (reopen c).1 ans c.fresh (by rw [hro])]
+        generalize reopen c = r at hro
+        obtain ⟨c1, e1⟩ := r
+        simp only at hro
+        subst hro
+        simp only
+        split
+        · rfl
+        · split <;> rfl
+      rw [heq]
+      exact key (reopen c).1 c.fresh (by rw [hro]) (by rw [hro]; simpa [nextAttempt, hs] using hok)
+  have hna : (!c.accepted) = true := by simp [ha]
+  unfold serviceConnect
+  rw [if_pos hna]
+  generalize accept c ans = r at hacc
+  obtain ⟨c1, e1⟩ := r
+  simp only at hacc ⊢
+  have hcond : ¬ ((!c1.accepted && c1.reconnectable && timerFired c1) = true) := by
+    rw [hacc.1]; simp
+  rw [if_neg hcond]
+  exact hacc
+
 end Ioflo.Reconnect
